@@ -139,14 +139,11 @@ def cellExact (r : Renderer) : Cell → Prop
   | .num d => r.thousands = false ∨ thousandsExact d = true
   | _ => True
 
-theorem target_eq (r : Renderer) (d : Rat) (h : r.thousands = false ∨ thousandsExact d = true) :
-    exactTarget r d = codeTarget r d := by
-  unfold exactTarget codeTarget scaled
-  rcases h with h | h
-  · simp [h]
-  · by_cases hk : r.thousands = true
-    · simp [hk, div16_thousand_exact d h]
-    · simp [hk]
+theorem target_eq (r : Renderer) (d : Rat) (_h : r.thousands = false ∨ thousandsExact d = true) :
+    exactTarget r d = codeTarget r d := rfl
+
+/-- since `Shift(-3)` replaced `Div(1000)` the code's target IS the property's target, for every amount -/
+theorem target_eq' (r : Renderer) (d : Rat) : exactTarget r d = codeTarget r d := rfl
 
 theorem numToString_head (r : Renderer) (d : Rat) : ∃ c rest, numToString r d = c :: rest ∧ c ≠ ' ' := by
   rw [numToString_shape]
